@@ -443,6 +443,84 @@ theorem refEffSwapUtil_root (e : RefEnv α) :
 
 end Swap
 
+/-! ## the whole protection formula on the reference -/
+
+section ProtRef
+/-- every integer the readers deliver is non-negative (what the kernel prints) -/
+def NonNegWorld (e : RefEnv Rat) : Prop := ∀ q f i, refInt e q f = .ok i → 0 ≤ i
+
+theorem refRaw_bounds (e : RefEnv Rat) (h : NonNegWorld e) (q : RPath) (r : Int) (hr : refRaw e q = .ok r) :
+    0 ≤ r ∧ ∃ cur, refInt e q .currentUsage = .ok cur ∧ r ≤ cur := by
+  simp only [refRaw] at hr
+  obtain ⟨cur, hcur, hr⟩ := Res.bind_eq_ok.1 hr
+  obtain ⟨mn, hmn, hr⟩ := Res.bind_eq_ok.1 hr
+  obtain ⟨lo, hlo, hr⟩ := Res.bind_eq_ok.1 hr
+  injection hr with hr
+  subst hr
+  have := rawProtection_bounds cur mn lo (h q _ cur hcur) (h q _ mn hmn)
+  exact ⟨this.1, cur, hcur, this.2⟩
+
+theorem refSumRaw_nonneg (e : RefEnv Rat) (h : NonNegWorld e) (pp : RPath) :
+    ∀ (names : List Str) (sum : Int), refSumRaw e pp names = .ok sum → 0 ≤ sum := by
+  intro names
+  induction names with
+  | nil => intro sum hs; simp [refSumRaw] at hs; omega
+  | cons nm rest ih =>
+    intro sum hs
+    simp only [refSumRaw] at hs
+    obtain ⟨r, hr, hs⟩ := Res.bind_eq_ok.1 hs
+    obtain ⟨s2, hs2, hs⟩ := Res.bind_eq_ok.1 hs
+    injection hs with hs
+    have h2 := ih s2 hs2
+    have h1 : 0 ≤ r := by
+      cases hraw : refRaw e (nm :: pp) with
+      | ok x =>
+        rw [hraw] at hr
+        simp [Res.getD'] at hr
+        subst hr
+        exact (refRaw_bounds e h _ x hraw).1
+      | unavailable =>
+        rw [hraw] at hr
+        simp [Res.getD'] at hr
+        omega
+      | crash c =>
+        rw [hraw] at hr
+        simp [Res.getD'] at hr
+    omega
+
+/-- 0 ≤ P(c) and P(c) ≤ usage(c), for the whole hierarchical formula -/
+theorem refMemProt_bounds (e : RefEnv Rat) (h : NonNegWorld e) : ∀ (p : RPath) (v : Int),
+    refMemProt e p = .ok v → 0 ≤ v ∧ ∀ cur, refInt e p .currentUsage = .ok cur → v ≤ cur
+  | [], v, hv => by
+    simp only [refMemProt] at hv
+    exact ⟨h [] _ v hv, fun cur hc => by rw [hv] at hc; injection hc with hc; omega⟩
+  | [n], v, hv => by
+    simp only [refMemProt] at hv
+    obtain ⟨h0, cur, hc, hle⟩ := refRaw_bounds e h [n] v hv
+    exact ⟨h0, fun cur' hc' => by rw [hc] at hc'; injection hc' with hc'; omega⟩
+  | n :: m :: ps, v, hv => by
+    simp only [refMemProt] at hv
+    obtain ⟨_, _, hv⟩ := Res.bind_eq_ok.1 hv
+    obtain ⟨names, _, hv⟩ := Res.bind_eq_ok.1 hv
+    obtain ⟨sum, hsum, hv⟩ := Res.bind_eq_ok.1 hv
+    have hs0 := refSumRaw_nonneg e h (m :: ps) names sum hsum
+    by_cases h0 : sum = 0
+    · simp only [h0, if_true] at hv
+      injection hv with hv
+      subst hv
+      exact ⟨Int.le_refl 0, fun cur hc => h _ _ cur hc⟩
+    · simp only [h0, if_false] at hv
+      obtain ⟨raw, hraw, hv⟩ := Res.bind_eq_ok.1 hv
+      obtain ⟨pp, hpp, hv⟩ := Res.bind_eq_ok.1 hv
+      injection hv with hv
+      subst hv
+      have hpp0 := (refMemProt_bounds e h (m :: ps) pp hpp).1
+      obtain ⟨hr0, cur, hc, hle⟩ := refRaw_bounds e h _ raw hraw
+      have := normProtection_bounds raw pp sum hr0 hpp0 hs0
+      exact ⟨this.1, fun cur' hc' => by rw [hc] at hc'; injection hc' with hc'; omega⟩
+
+end ProtRef
+
 /-! ## the per-tick cache: values only ever appear, never change (until `refresh`) -/
 
 section Cache
